@@ -54,6 +54,7 @@ type RollScn struct {
 	Separate bool       `json:"separate,omitempty"` // C14: sibling appender name.wf in the same directory
 	FaultDir []string   `json:"dir_faults,omitempty"` // C14: readdir | info | remove failures
 	Static   string     `json:"static,omitempty"`     // C19b: file-closed | file-unstarted | console-fails
+	Script   []string   `json:"script,omitempty"`     // C19 grid: sequential script of w | clk | out:<kind> | restore
 }
 
 func (s *RollScn) knobs() SimKnobs { return s.Knobs }
@@ -398,7 +399,9 @@ func (c19) Run(x *Exec, scn any) {
 		panic("harness: rolling Start failed on a healthy disk: " + err.Error())
 	}
 	boundaries := 0
-	clockEnv(x, s, &boundaries)
+	if len(s.Script) == 0 {
+		clockEnv(x, s, &boundaries)
+	}
 	away := false
 	var rule *simos.FaultRule
 	idx := 0
@@ -437,9 +440,52 @@ func (c19) Run(x *Exec, scn any) {
 		}
 	}})
 	var writes []*rollWrite
-	spawnWriters(x, s, a, &writes)
 	maxOpen := 0
-	res := x.Sim.Run(nil)
+	var res verifsim.RunResult
+	if len(s.Script) > 0 {
+		// enumerated placement: a fixed sequential script, the outage begins and ends at given positions
+		for i, step := range s.Script {
+			switch {
+			case step == "w":
+				rw := &rollWrite{ID: fmt.Sprintf("g%d", i), Payload: rollPayload(0, i, 10), Start: verifsim.Now()}
+				writes = append(writes, rw)
+				ok := x.do(fmt.Sprintf("writer-g%d", i), func() {
+					pv, _ := call(func() { a.Write([]byte(rw.Payload)) })
+					rw.End = verifsim.Now()
+					rw.Panic, rw.Returned = pv, pv == nil
+				})
+				if !ok {
+					o.violate("blocked", "C19/write-blocked", "write %d of the script did not return: %v", i, x.clientsStuck())
+				}
+			case step == "clk":
+				now := verifsim.Now()
+				x.Sim.Advance(now.Truncate(iv).Add(iv).Sub(now) + time.Millisecond)
+				boundaries++
+				x.Sim.Probe("boundary_crossed")
+			case step == "restore":
+				restore()
+			case strings.HasPrefix(step, "out:"):
+				s.Outage = nil
+				kind := strings.TrimPrefix(step, "out:")
+				if kind == "rename" {
+					if err := x.FS.Rename(rollDir, rollDir+".away"); err != nil {
+						panic("harness: rename failed: " + err.Error())
+					}
+					away = true
+				} else {
+					errno := map[string]syscall.Errno{"emfile": syscall.EMFILE, "enospc": syscall.ENOSPC, "eacces": syscall.EACCES}[kind]
+					rule = x.FS.AddFault(&simos.FaultRule{Op: "open", Prefix: rollDir, Err: errno, Count: -1})
+				}
+				x.Sim.Probe("outage_started")
+			}
+			if n := x.FS.OpenCount(); n > maxOpen {
+				maxOpen = n
+			}
+		}
+	} else {
+		spawnWriters(x, s, a, &writes)
+		res = x.Sim.Run(nil)
+	}
 	if len(x.clientsStuck()) > 0 || res.StepCap {
 		o.violate("blocked", "C19/write-blocked", "writes did not finish under faults: %+v", res)
 	}
@@ -763,4 +809,36 @@ func (c14) Run(x *Exec, scn any) {
 	}
 	o.Reached = x.Sim.Probes["boundary_crossed"] > 0 && expiredOwn > 0 && other > 0
 	o.ScnDistinct = true
+}
+
+// Grid enumerates every placement of one outage (4 kinds) in a fixed
+// sequential script of 5 writes separated by 4 boundary crossings, for two
+// interval lengths: the outage starts before script position i and ends before
+// position j > i (or never within the script).
+func (c19) Grid() []any {
+	base := []string{"w", "clk", "w", "clk", "w", "clk", "w", "clk", "w"}
+	var out []any
+	for _, iv := range []string{"1s", "10m"} {
+		for _, kind := range []string{"rename", "emfile", "enospc", "eacces"} {
+			for i := 0; i <= len(base); i++ {
+				for j := i; j <= len(base)+1; j++ {
+					var script []string
+					for p := 0; p <= len(base); p++ {
+						if p == i {
+							script = append(script, "out:"+kind)
+						}
+						if p == j && j <= len(base) {
+							script = append(script, "restore")
+						}
+						if p < len(base) {
+							script = append(script, base[p])
+						}
+					}
+					out = append(out, &RollScn{Interval: iv, MaxAge: 100000, Writers: [][]int{{10}}, Script: script,
+						Knobs: SimKnobs{Chunks: 1, OffsetMs: int64(len(out)%3) * 499}})
+				}
+			}
+		}
+	}
+	return out
 }
